@@ -274,6 +274,8 @@ class Translator:
       base = pyf.__name__
       mono = any((ann.get(n) is None or _is_any(ann.get(n))) for n in names)
       coqname = base + ("__" + "_".join(self._tname(t) for t in decl) if mono else "")
+      if any(f.coqname == coqname for f in self.funcs.values()):
+        coqname = pyf.__module__.split(".")[-1] + "__" + coqname
       fn = _FnTr(self, pyf, names, decl, pyqual)
       body, rett = fn.run(fdef)
       fi = FuncInfo(coqname, names, decl, rett, body, pyqual, fn.deps, fn.shape_params)
@@ -290,6 +292,134 @@ class Translator:
 
 class _Ret(Exception):
   pass
+
+
+def _contains(stmts, kinds, into_loops=False):
+  for s in stmts:
+    if isinstance(s, kinds):
+      return True
+    if isinstance(s, ast.If) and (_contains(s.body, kinds, into_loops) or _contains(s.orelse, kinds, into_loops)):
+      return True
+    if into_loops and isinstance(s, (ast.For, ast.While)) and _contains(s.body, kinds, True):
+      return True
+  return False
+
+
+def _assign_flag(name, val, ln):
+  return ast.Assign(targets=[ast.Name(id=name, ctx=ast.Store())], value=ast.Constant(value=val), lineno=ln)
+
+
+def _not_flags(names):
+  test = ast.Name(id=names[0], ctx=ast.Load())
+  for n in names[1:]:
+    test = ast.BoolOp(op=ast.Or(), values=[test, ast.Name(id=n, ctx=ast.Load())])
+  return ast.UnaryOp(op=ast.Not(), operand=test)
+
+
+class _LoopFlags:
+  """Rewrite loops so that break / continue / (bare or valued) return inside them become flag
+  assignments; statements after a possible exit are guarded.  Semantics preserving: the fold
+  simply does nothing for the remaining iterations."""
+
+  def __init__(self, kernel_mode):
+    self.n = 0
+    self.kernel_mode = kernel_mode
+    self.ret_flag = None  # name of the function-level return flag if a loop contains return
+
+  def block(self, stmts, brk=None, cnt=None, ret=None):
+    """Rewrite a statement list inside a loop body (brk/cnt/ret are flag names or None)."""
+    out = []
+    for i, s in enumerate(stmts):
+      ln = getattr(s, "lineno", 0)
+      if isinstance(s, ast.Break):
+        out.append(_assign_flag(brk, True, ln))
+        return out
+      if isinstance(s, ast.Continue):
+        out.append(_assign_flag(cnt, True, ln))
+        return out
+      if isinstance(s, ast.Return) and ret is not None:
+        if s.value is not None:
+          out.append(ast.Assign(targets=[ast.Name(id="retval__", ctx=ast.Store())], value=s.value, lineno=ln))
+        out.append(_assign_flag(ret, True, ln))
+        if brk is not None:
+          out.append(_assign_flag(brk, True, ln))
+        return out
+      if isinstance(s, ast.If):
+        kinds = (ast.Break, ast.Continue) + ((ast.Return,) if ret is not None else ())
+        exits = _contains([s], kinds)
+        s2 = ast.If(test=s.test, body=self.block(s.body, brk, cnt, ret) or [ast.Pass()], orelse=self.block(s.orelse, brk, cnt, ret), lineno=ln)
+        out.append(s2)
+        if exits and i + 1 < len(stmts):
+          flags = [f for f in (brk, cnt, ret) if f is not None]
+          rest = self.block(stmts[i + 1 :], brk, cnt, ret)
+          out.append(ast.If(test=_not_flags(flags), body=rest or [ast.Pass()], orelse=[], lineno=ln))
+          return out
+        continue
+      if isinstance(s, (ast.For, ast.While)):
+        out.extend(self.loop(s, ret))
+        if ret is not None and _contains(s.body, (ast.Return,), True) and i + 1 < len(stmts):
+          flags = [f for f in (brk, cnt, ret) if f is not None]
+          rest = self.block(stmts[i + 1 :], brk, cnt, ret)
+          out.append(ast.If(test=_not_flags([ret] if ret else flags), body=rest or [ast.Pass()], orelse=[], lineno=ln))
+          return out
+        continue
+      out.append(s)
+    return out
+
+  def loop(self, s, outer_ret):
+    """Rewrite one loop; returns [flag inits..., loop]."""
+    ln = s.lineno
+    has_b = _contains(s.body, (ast.Break,))
+    has_c = _contains(s.body, (ast.Continue,))
+    has_r = _contains(s.body, (ast.Return,), True)
+    self.n += 1
+    brk = f"brk__{self.n}" if (has_b or has_r) else None
+    cnt = f"cnt__{self.n}" if has_c else None
+    ret = outer_ret
+    if has_r and ret is None:
+      ret = "ret__"
+      self.ret_flag = ret
+    pre = []
+    if brk:
+      pre.append(_assign_flag(brk, False, ln))
+    body = []
+    if cnt:
+      body.append(_assign_flag(cnt, False, ln))
+    inner = self.block(s.body, brk, cnt, ret if has_r else None)
+    if brk:
+      body.append(ast.If(test=_not_flags([brk]), body=inner or [ast.Pass()], orelse=[], lineno=ln))
+    else:
+      body.extend(inner)
+    if isinstance(s, ast.For):
+      new = ast.For(target=s.target, iter=s.iter, body=body, orelse=[], lineno=ln)
+    else:
+      test = s.test if not brk else ast.BoolOp(op=ast.And(), values=[ast.UnaryOp(op=ast.Not(), operand=ast.Name(id=brk, ctx=ast.Load())), s.test])
+      new = ast.While(test=test, body=body, orelse=[], lineno=ln)
+    return pre + [new]
+
+  def function(self, stmts):
+    """Top level of a function body: loops with returns get a function-level flag."""
+    out = []
+    for i, s in enumerate(stmts):
+      ln = getattr(s, "lineno", 0)
+      if isinstance(s, (ast.For, ast.While)):
+        has_r = _contains(s.body, (ast.Return,), True)
+        new = self.loop(s, None)
+        if has_r:
+          out.append(_assign_flag("ret__", False, ln))
+          out.extend(new)
+          rest = self.function(stmts[i + 1 :])
+          if self.kernel_mode:
+            out.append(ast.If(test=ast.Name(id="ret__", ctx=ast.Load()), body=[ast.Return(value=None, lineno=ln)], orelse=rest or [ast.Pass()], lineno=ln))
+          else:
+            out.append(ast.If(test=ast.Name(id="ret__", ctx=ast.Load()), body=[ast.Return(value=ast.Name(id="retval__", ctx=ast.Load()), lineno=ln)], orelse=rest or [ast.Pass()], lineno=ln))
+          return out
+        out.extend(new)
+      elif isinstance(s, ast.If):
+        out.append(ast.If(test=s.test, body=self.function(s.body) or [ast.Pass()], orelse=self.function(s.orelse), lineno=ln))
+      else:
+        out.append(s)
+    return out
 
 
 class _FnTr:
@@ -323,8 +453,18 @@ class _FnTr:
       self.shape_params.append(key)
     return f"{cname(root)}__shape{k + consumed}"
 
+  def prepass(self, body, kernel_mode):
+    lf = _LoopFlags(kernel_mode)
+    body = lf.function(body)
+    for st in body:
+      ast.fix_missing_locations(st)
+    if lf.ret_flag and not kernel_mode:
+      self.err(body[0], "valued return inside a loop (needs a typed default)")
+    return body
+
   def run(self, fdef):
     body = [s for s in fdef.body if not (isinstance(s, ast.Expr) and isinstance(getattr(s, "value", None), ast.Constant))]
+    body = self.prepass(body, False)
     code = self.block(body, dict(self.env0), None, 1)
     return code, self.rettype
 
@@ -425,6 +565,33 @@ class _FnTr:
   def ind(self, d):
     return "  " * d
 
+  # tuples of carried / merged variables: right-nested pairs bound through projections
+  # (deep `let '(a,b,c,..)` patterns elaborate very slowly in Coq)
+  def tup_expr(self, names):
+    names = [cname(n) for n in names]
+    if len(names) == 1:
+      return names[0]
+    out = names[-1]
+    for n in reversed(names[:-1]):
+      out = f"({n}, {out})"
+    return out
+
+  def tup_bind(self, names, src, I):
+    names = [cname(n) for n in names]
+    if len(names) == 1:
+      return f"{I}let {names[0]} := {src} in\n"
+    self.tmp += 1
+    p = f"p__{self.tmp}"
+    code = f"{I}let {p} := {src} in\n"
+    path = p
+    for i, n in enumerate(names):
+      if i < len(names) - 1:
+        code += f"{I}let {n} := fst {path} in\n"
+        path = f"(snd {path})"
+      else:
+        code += f"{I}let {n} := {path[1:-1] if path.startswith('(') else path} in\n"
+    return code
+
   def block(self, stmts, env, k, d):
     """Translate stmts; k(env, depth) gives the continuation code (None => must return)."""
     if not stmts:
@@ -468,6 +635,8 @@ class _FnTr:
       return self.if_stmt(s, rest, env, k, d)
     if isinstance(s, ast.For):
       return self.for_stmt(s, rest, env, k, d)
+    if isinstance(s, ast.While):
+      return self.while_stmt(s, rest, env, k, d)
     self.err(s, f"unsupported statement {type(s).__name__}")
 
   def _load(self, t):
@@ -566,12 +735,12 @@ class _FnTr:
         env2[n] = ea[n]
       if not live:
         return self.block(rest, env2, k, d)
-      tup = "(" + ", ".join(cname(n) for n in live) + ")" if len(live) > 1 else cname(live[0])
-      pat = f"'{tup}" if len(live) > 1 else tup
+      tup = self.tup_expr(live)
       II = self.ind(d + 1)
       ca = ca.replace("@@TUPLE@@", II + tup)
       cb = cb.replace("@@TUPLE@@", II + tup)
-      return f"{I}let {pat} :=\n{I}  if {cc} then\n{ca}\n{I}  else\n{cb} in\n" + self.block(rest, env2, k, d)
+      src = f"(\n{I}  if {cc} then\n{ca}\n{I}  else\n{cb})"
+      return self.tup_bind(live, src, I) + self.block(rest, env2, k, d)
 
     # some branch returns: push the continuation into the branches
     def kk(e, dd):
@@ -591,9 +760,6 @@ class _FnTr:
       self.err(s, "for target")
     if self.returns(s.body) != "never":
       self.err(s, "return inside for loop")
-    for n in ast.walk(s):
-      if isinstance(n, (ast.Break, ast.Continue)):
-        self.err(s, "break/continue")
     args = s.iter.args
     statics = [self.try_static(a, env) for a in args]
     if all(ok for ok, _ in statics):
@@ -621,8 +787,7 @@ class _FnTr:
     carried = [n for n in self.assigned(s.body) if n in env and n != s.target.id]
     if not carried:
       self.err(s, "loop without carried variables")
-    tup = "(" + ", ".join(cname(n) for n in carried) + ")" if len(carried) > 1 else cname(carried[0])
-    pat = f"'{tup}" if len(carried) > 1 else tup
+    tup = self.tup_expr(carried)
     env_b = dict(env)
     env_b[s.target.id] = Z
 
@@ -634,11 +799,36 @@ class _FnTr:
 
     body = self.block(s.body, env_b, kend, d + 2)
     iv = cname(s.target.id)
-    code = (
-      f"{I}let {pat} :=\n{I}  for_range {lo} {hi[0]} {tup} (fun {iv} acc__ =>\n"
-      f"{I}    let {pat} := acc__ in\n{body}) in\n"
+    src = f"(for_range {lo} {hi[0]} {tup} (fun {iv} acc__ =>\n" + self.tup_bind(carried, "acc__", I + "    ") + f"{body}))"
+    return self.tup_bind(carried, src, I) + self.block(rest, env, k, d)
+
+  def while_stmt(self, s, rest, env, k, d):
+    """while c: body  ->  while_fuel WHILE_FUEL (fun vars => c) (fun vars => body) vars.
+    Exhausting the fuel returns the current variables (theorems must bound the iteration count)."""
+    I = self.ind(d)
+    if s.orelse:
+      self.err(s, "while-else")
+    if self.returns(s.body) != "never":
+      self.err(s, "return inside while loop")
+    carried = [n for n in self.assigned(s.body) if n in env]
+    if not carried:
+      self.err(s, "while loop without carried variables")
+    tup = self.tup_expr(carried)
+    cc, ct = self.expr(s.test, env)
+    cc = self.truthy(cc, ct, s)
+
+    def kend(e, dd):
+      for n in carried:
+        if e[n] != env[n]:
+          raise TranslateError(f"{self.pyqual}:{s.lineno}: loop-carried {n} changes type")
+      return self.ind(dd) + tup
+
+    body = self.block(s.body, dict(env), kend, d + 2)
+    src = (
+      "(while_fuel WHILE_FUEL (fun acc__ =>\n" + self.tup_bind(carried, "acc__", I + "    ") + f"{I}    {cc})\n"
+      f"{I}    (fun acc__ =>\n" + self.tup_bind(carried, "acc__", I + "    ") + f"{body}) {tup})"
     )
-    return code + self.block(rest, env, k, d)
+    return self.tup_bind(carried, src, I) + self.block(rest, env, k, d)
 
   # -- expressions ------------------------------------------------------------
   def expr(self, e, env):
@@ -944,6 +1134,12 @@ class _FnTr:
       return f"(Z.abs {ac[0]})", Z
     if n in ("min", "max") and at == [S, S]:
       return f"(s{n} {ac[0]} {ac[1]})", S
+    if n in ("min", "max") and len(at) == 2 and at[0] == at[1] and at[0][0] == "V":
+      return f"(vmap2 s{n} {ac[0]} {ac[1]})", at[0]
+    if n == "abs" and len(at) == 1 and at[0][0] == "V":
+      return f"(map sabs {ac[0]})", at[0]
+    if n == "round" and at == [S]:
+      return f"(sfloor (sadd {ac[0]} (slit 1 2)))", S
     if n in ("min", "max") and at == [Z, Z]:
       return f"(Z.{n} {ac[0]} {ac[1]})", Z
     if n == "clamp" and at == [S, S, S]:
@@ -1022,6 +1218,7 @@ class _KernelTr(_FnTr):
 
   def run(self, fdef):
     body = [s for s in fdef.body if not (isinstance(s, ast.Expr) and isinstance(getattr(s, "value", None), ast.Constant))]
+    body = self.prepass(body, True)
     code = "  let writes__ := (@nil (write S)) in\n" + self.block(body, dict(self.env0), lambda e, d: self.ind(d) + "writes__", 1)
     return code, ("W",)
 
@@ -1039,7 +1236,7 @@ class _KernelTr(_FnTr):
     return False
 
   def assigned(self, stmts):
-    out = super().assigned(stmts)
+    out = [n for n in super().assigned(stmts) if n not in self.array_names]
     if self._has_write(stmts) and "writes__" not in out:
       out.append("writes__")
     return out
